@@ -96,7 +96,14 @@ type c19Recorder struct {
 	// time.NewTicker(≤0), whose panic in a goroutine would take the whole test binary (and the
 	// evidence) down. A custom RoundTripper is called on the goroutine of client.Do.
 	hold bool
+	// failFirst: the first k requests are recorded and then fail the way a broken network makes them
+	// fail - with an error text that names an (internal) address. What is reported AFTER such a
+	// failure must still be the documented report.
+	failFirst int
 }
+
+// c19NetErrAddr appears in the transport error of the failed beacons; it must never show up in a report.
+const c19NetErrAddr = "10.20.30.40"
 
 func (r *c19Recorder) RoundTrip(req *http.Request) (*http.Response, error) {
 	var body []byte
@@ -107,9 +114,13 @@ func (r *c19Recorder) RoundTrip(req *http.Request) (*http.Response, error) {
 	r.mu.Lock()
 	r.reqs = append(r.reqs, c19Req{URL: req.URL.String(), Method: req.Method, Header: req.Header.Clone(), Body: body, At: time.Now()})
 	hold := r.hold
+	failing := len(r.reqs) <= r.failFirst
 	r.mu.Unlock()
 	if hold {
 		runtime.Goexit()
+	}
+	if failing {
+		return nil, fmt.Errorf("dial tcp: lookup telemetry.example.invalid on %s:53: no such host", c19NetErrAddr)
 	}
 	return &http.Response{StatusCode: 200, Status: "200 OK", Proto: "HTTP/1.1", ProtoMajor: 1, ProtoMinor: 1,
 		Header: http.Header{}, Body: io.NopCloser(strings.NewReader("{}")), Request: req}, nil
@@ -1121,6 +1132,36 @@ func TestVerifC19(t *testing.T) {
 			// two more fresh installations: ids differ
 			runCollector(colCase{true, 5 * time.Millisecond, "fresh"}, rep+1000)
 			runCollector(colCase{true, 5 * time.Millisecond, "fresh"}, rep+2000)
+		}
+		// reports sent AFTER beacons that failed in the network: still exactly the documented report
+		// (nothing of the failure - an error text names resolvers, proxies, addresses - may ride along)
+		for k := 1; k <= 2; k++ {
+			d, _ := os.MkdirTemp(dir, "vfmarkdir-colfail-")
+			dataDir := filepath.Join(d, "data")
+			line := fmt.Sprintf("c19 collector-after-failed-beacons failed=%d interval=5ms", k)
+			rec, uninstall := c19Install(false)
+			rec.failFirst = k
+			from := time.Now()
+			col, err := telemetry.New(&telemetry.Config{Enabled: true, Interval: 5 * time.Millisecond, DataDir: dataDir}, Version, lg)
+			id := ""
+			if err == nil && col != nil {
+				id = col.GetInstanceID()
+				col.Start()
+				time.Sleep(150 * time.Millisecond)
+				c19WithTimeout(10*time.Second, col.Stop)
+			}
+			uninstall()
+			reqs := rec.snapshot()
+			res.Count(line, len(reqs) > k)
+			res.Dist(fmt.Sprintf("collector-after-failed-beacons:%s", c19Bucket(len(reqs))))
+			ids, _ := c19PrepareID(filepath.Join(d, "unused"), "fresh")
+			ids.readPost(dataDir)
+			for i, rq := range reqs {
+				if i < k {
+					continue // the failed ones were never delivered
+				}
+				c19CheckRequest(res, line, rq, modelKeys, id, ids, host, append(append([]string{}, markers...), c19NetErrAddr), from, time.Now())
+			}
 		}
 		// the model over EVERY state of the data directory: a disabled collector is silent
 		// for every interval, and the id never has another origin than file / fresh
